@@ -22,6 +22,19 @@ def check_split(rep, prog):
     if len(il) != 1 or len(tr) != 1 or not tr[0].loops:
         raise AnalysisError("parse_dump_data no longer formats one ILOG region and a loop of trace regions through _format_ilog_data / "
                             "_format_trace_data: region idiom not recognised")
+    # ---- which decoder a region gets is decided by its position (first region = ILOG, the others = trace buffers),
+    # never by looking at the region's bytes
+    def content_atoms(g):
+        return [c for c in (g.args if isinstance(g, Op) and g.op == "and" else [g])
+                if any(isinstance(x, Op) and x.op in ("getslice", "getitem", "m:startswith", "m:tobytes", "elem") and
+                       any(y == DATA for y in walk(x)) for x in walk(c))
+                and not any(isinstance(x, Op) and x.op in ("m:find", "sorted") for x in walk(c))]
+    byc = content_atoms(il[0].guard) + content_atoms(tr[0].guard)
+    rep.check(not byc, "C17.R3.region-decoders", "the ILOG / trace decoder of a region is chosen by the region's position, not by its bytes", where,
+              il[0].node, "a region's decoder is chosen by inspecting its bytes (%s): ILOG data that happens to begin like a trace buffer header "
+              "is handed to the trace decoder" % (repr(byc[0])[:120] if byc else ""), node=il[0].node)
+    if byc:
+        return
     # ---- search keys and offsets list
     finds = [e for e in I.events if e.kind == "methcall" and e.data[1] in ("find", "rfind", "index")]
     keys = [e.data[2][0].v for e in finds if e.data[2] and is_const(e.data[2][0], bytes)]
